@@ -92,7 +92,7 @@ def gen_semver(rng):
     if rng.random() < 0.4:
         s += "-" + ".".join(gen_semver_ident(rng) for _ in range(rng.randint(1, 3)))
     if rng.random() < 0.25:
-        s += "+" + ".".join(rng.choice(["build", "1", "001", "exp", "sha-5114f85", "b2"]) for _ in range(rng.randint(1, 2)))
+        s += "+" + ".".join(rng.choice(["build", "1", "001", "exp", "sha-5114f85", "b2", "9", "10", "1a", "2", "11", "05", "5"]) for _ in range(rng.randint(1, 2)))
     if rng.random() < 0.08:
         s = rng.choice("vV") + s
     return s
@@ -600,7 +600,7 @@ def gen_legacy_openssl(rng):
         return s + rng.choice(["0", "1", "5", "05", "10"])
     if r < 0.78:
         # digit right after the fix number followed by letters: rejected (`patch[0].isdigit()`)
-        return s + rng.choice(["0a", "2b", "1-beta1"])
+        return s + rng.choice(["0a", "2b", "1-beta1", "5a", "7-beta2", "9z", "05"])
     return s + rng.choice(["-beta1", "-beta2", "-beta3", "-alpha1", "-pre1", "-beta10", "-dev",
                            "-alpha", "-beta", "-betaX", "-", "A", "a1", "+a", "_1"])
 
